@@ -76,6 +76,12 @@ class Cycles(srv.SrvHarness):
             dict(topo='single', capacity=2, rounds=2, calls=[[[10, BIG, False]]], stream=dict(xs=[0, 1, 2, 3], stop_after=1),
                  oracles=O, bound=d, cap=cap),
             dict(topo='seq', capacity=3, rounds=2, calls=[], stream=dict(xs=[0, 1, 2, 3, 4], stop_after=2), oracles=O, bound=d, cap=cap),
+            # a batching worker with requests of an abandoned stream still in flight when the server is left (the end marker
+            # queues up right behind them)
+            dict(topo='batch', batch=2, capacity=3, rounds=2, calls=[], stream=dict(xs=[0, 1, 2, 3], stop_after=1),
+                 drain_before_exit=False, oracles=['shutdown'], bound=d, cap=cap),
+            dict(topo='batch', batch=3, capacity=2, rounds=2, gated=['A'], calls=[], stream=dict(xs=[0, 1, 2], stop_after=1),
+                 drain_before_exit=False, oracles=['shutdown'], bound=d, cap=cap),
             # the consumer breaks out of the stream and leaves the server with requests in flight; the suspended generator
             # is closed only afterwards (what `for ... in server.stream(...): break` inside `with server:` does)
             dict(topo='single', capacity=1, rounds=2, gated=['A'], calls=[], drain_before_exit=False,
